@@ -1,7 +1,7 @@
 SPECIFICATION Spec
 CONSTANTS
-  Fams = {"single", "disjoint", "adjacent", "stacked", "overlap", "nested", "lshape", "para", "curved", "cross4", "corner", "mixed4"}
-  MaxRoutes = 2
+  Fams = {"adjacent", "lshape", "overlap", "mixed4"}
+  MaxRoutes = 3
   PerClass = 1
   DEV_RemoveNoRebuild = FALSE
   DEV_MoveNoRebuild = FALSE
